@@ -27,7 +27,7 @@ def unw(n):
 
 # ------------------------------------------------------------------ C04 numeric / boolean conversion
 U("setopt_int_concrete", harness="harness/setopt_num.c", entry="h_setopt_int_concrete", func="cfg_setopt",
-  defs={"quick": ["-DTOKN=4"], "thorough": ["-DTOKN=6"]}, cbmc={"quick": unw(7), "thorough": unw(9)},
+  defs={"quick": ["-DTOKN=4"], "thorough": ["-DTOKN=6"]}, cbmc={"quick": unw(24), "thorough": unw(24)},
   label="bounded(|token|<=4 quick, 6 thorough; all bytes; all errno)", props=["C04", "C06", "C10", "C02"],
   replay="replay/setopt_scalar.c", cost=20)
 U("setopt_bool_concrete", harness="harness/setopt_num.c", entry="h_setopt_bool_concrete", func="cfg_setopt",
@@ -46,14 +46,20 @@ U("setopt_float_abstract", harness="harness/setopt_num.c", entry="h_setopt_float
   replay="replay/setopt_float.c", cost=10)
 U("setopt_int_abstract", harness="harness/setopt_num.c", entry="h_setopt_int_abstract", func="cfg_setopt",
   defs={"quick": ["-DTOKN=4", "-DCFGV_ABSTRACT_NUM", "-DCFGV_NO_REF_STRTOL"], "thorough": ["-DTOKN=8", "-DCFGV_ABSTRACT_NUM", "-DCFGV_NO_REF_STRTOL"]},
-  cbmc={"quick": unw(7), "thorough": unw(11)},
+  cbmc={"quick": unw(24), "thorough": unw(24)},
   label="proof over the conversion's ghost facts (token bytes bounded only for strlen: 4 quick, 8 thorough)", props=["C04", "C06", "C10", "C02"],
   trusted=["strtol: assumed contract C11 7.22.1.4 (arbitrary value / end offset / range error; errno written only on range error)"],
   replay="replay/setopt_int_range.c", cost=10)
 
 # ------------------------------------------------------------------ per-property text for MANIFEST / evidence
+HOOK_COMMITS = []
+NOT_APPLICABLE = {}
 PROPERTY_INFO = {
     "C04": {"level": "other",
+            "text": "cfg_setopt() INT/FLOAT/BOOL arms and cfg_parse_boolean() under contract; postconditions taken from the statement (spec/num_spec.h). "
+                    "Integer and boolean tokens: every token up to 4 (quick) / 6 (thorough) bytes over all byte values, every entry errno - bounded stand-in. "
+                    "Range of long, float numerals and errno independence for tokens of any length: proved over the ghost facts of an abstract strtol/strtod carrier.",
+            "note": "strtol/strtod/strcasecmp/strspn are assumed contracts (C11).",
             "explanation": "cfg_setopt() INT/FLOAT/BOOL arms and cfg_parse_boolean() checked against spec/num_spec.h by CBMC: "
                            "every token up to the stated length over all 256 byte values, every entry errno, every flag word.",
             "assumptions": []},
